@@ -209,6 +209,20 @@ func (s *gsched) waitFor(expect map[string]gateKey, d time.Duration) string {
 	}
 }
 
+// errName renders an error as name:message of the uGO error it carries.
+func errName(err error) string {
+	if err == nil {
+		return "<nil>"
+	}
+	if re, ok := err.(*ugo.RuntimeError); ok && re.Err != nil {
+		return re.Err.Name + ":" + re.Err.Message
+	}
+	if e, ok := err.(*ugo.Error); ok {
+		return e.Name + ":" + e.Message
+	}
+	return "go:" + strings.SplitN(err.Error(), "\n", 2)[0]
+}
+
 // ---------------------------------------------------------------- scripts
 
 type abortCfg struct {
@@ -228,6 +242,12 @@ var abortCfgs = map[string]abortCfg{
 		Src: "global cb\n%scb(f)\ncb(f)\nreturn 7\n"},
 	"run-cb1-nopool": {Name: "run-cb1-nopool", Mode: "run", ChildInf: true, NoPool: true,
 		Src: "global cb\n%scb(f)\nreturn 7\n"},
+	// the callback is awaited inside try / catch / finally: the abort strikes while handlers are open
+	"run-cb1-try": {Name: "run-cb1-try", Mode: "run", ChildInf: true,
+		Src: "global cb\n%stry { cb(f) } catch e { return 1 } finally { y := 2 }\nreturn 7\n"},
+	// the root VM loops inside a script function called from a try statement of the main function
+	"run-try-call": {Name: "run-try-call", Mode: "run", RootInf: true,
+		Src: "global cb\n%sg := func() { for {} }\ntry { g() } catch e { return 1 } finally { y := 2 }\nreturn 7\n"},
 	"run-cb1-fin": {Name: "run-cb1-fin", Mode: "run", ChildInf: false,
 		Src: "global cb\n%sx := cb(f)\nreturn x + 6\n"},
 	"run-plain": {Name: "run-plain", Mode: "run", RootInf: true,
@@ -465,8 +485,11 @@ func replayAbort(cfg abortCfg, sc schedCase, n int) replayResult {
 			close(runDone)
 		}()
 	}
+	var abortWG sync.WaitGroup
 	startAbort := func() {
+		abortWG.Add(1)
 		go func() {
+			defer abortWG.Done()
 			s.register("A")
 			vm.Abort()
 			s.markFinished("A")
@@ -642,19 +665,63 @@ func replayAbort(cfg abortCfg, sc schedCase, n int) replayResult {
 		}
 	}
 	rr.PostSteps = post
-	// an aborted VM runs later scripts normally
+	// an aborted VM runs later scripts normally (once every Abort call of the schedule has returned: an
+	// Abort that arrives during a later run rightly aborts that run)
 	s.uninstall()
+	{
+		allAborted := make(chan struct{})
+		go func() { abortWG.Wait(); close(allAborted) }()
+		wait(allAborted, 3*time.Second)
+	}
 	if stuck {
 		rr.FollowUp = "42 <nil>"
 		hung += " (and repeated Abort calls did not stop it either)"
-	} else if cfg.Mode == "run" {
-		bc2, _ := ugo.Compile([]byte("return 42"), ugo.CompilerOptions{})
-		vm.SetBytecode(bc2)
-		ret, err := vm.Run(nil)
-		rr.FollowUp = fmt.Sprint(ret, err)
-	} else if eval != nil {
-		ret, _, err := eval.Run(context.Background(), []byte("return 42"))
-		rr.FollowUp = fmt.Sprint(ret, err)
+	} else {
+		// three later scripts: an error outside any try statement ends the run with that error, a try statement
+		// works, a plain script returns its value (each under a watchdog: a stale handler may loop)
+		later := func(src string) string {
+			ch := make(chan string, 1)
+			go func() {
+				defer func() {
+					if p := recover(); p != nil {
+						ch <- fmt.Sprint("PANIC ", p)
+					}
+				}()
+				if cfg.Mode == "run" {
+					bc2, err := ugo.Compile([]byte(src), ugo.CompilerOptions{})
+					if err != nil {
+						ch <- "COMPILE " + err.Error()
+						return
+					}
+					vm.SetBytecode(bc2)
+					ret, err := vm.Run(nil)
+					ch <- fmt.Sprint(ret, " ", errName(err))
+					return
+				}
+				ret, _, err := eval.Run(context.Background(), []byte(src))
+				ch <- fmt.Sprint(ret, " ", errName(err))
+			}()
+			select {
+			case x := <-ch:
+				return x
+			case <-time.After(5 * time.Second):
+				for i := 0; i < 2000; i++ {
+					vm.Abort()
+					time.Sleep(time.Millisecond)
+				}
+				return "did not end within 5 s"
+			}
+		}
+		if cfg.Mode == "run" || eval != nil {
+			a := later("fu1 := 1\nthrow error(\"probe\")")
+			b := later("fu2 := []\ntry { throw \"x\" } catch e { fu2 = append(fu2, 1) } finally { fu2 = append(fu2, 2) }\nreturn fu2")
+			c := later("return 42")
+			if a == "<nil> error:probe" && b == "[1, 2] <nil>" && c == "42 <nil>" {
+				rr.FollowUp = "42 <nil>"
+			} else {
+				rr.FollowUp = fmt.Sprintf("throw outside try: %s (want <nil> error:probe); try statement: %s (want [1, 2] <nil>); plain: %s (want 42 <nil>)", a, b, c)
+			}
+		}
 	}
 	switch {
 	case hung != "":
